@@ -1,3 +1,7 @@
 import EqsigVerif.Audit
 import EqsigVerif.Props.C08
+import EqsigVerif.Props.C09
+import EqsigVerif.Props.C10
 #audit EqsigVerif.Props.C08
+#audit EqsigVerif.Props.C09
+#audit EqsigVerif.Props.C10
